@@ -13,6 +13,8 @@ import (
 	"os"
 	"runtime"
 	"sort"
+	"strconv"
+	"time"
 
 	"verif/harness/term"
 )
@@ -22,6 +24,10 @@ type component struct {
 	run func(in term.T) term.T
 	// kinds returns the op-kind histogram of an input (for the evidence files)
 	kinds func(in term.T) map[string]int
+	// hung, if set, is the observation to record when run does not return within the per-case time
+	// limit (a run of the real code that fails to stop without emitting anything cannot be interrupted:
+	// the record is written and the process exits, the rest of the batch is lost)
+	hung func(in term.T) term.T
 }
 
 var components = map[string]component{}
@@ -35,6 +41,25 @@ func safeRun(c component, in term.T) (out term.T) {
 		}
 	}()
 	return c.run(in)
+}
+
+// timedRun is safeRun under a per-case time limit for components that declare a `hung` observation
+func timedRun(c component, in term.T) (out term.T, timedOut bool) {
+	if c.hung == nil {
+		return safeRun(c, in), false
+	}
+	limit := 60 * time.Second
+	if v, err := strconv.Atoi(os.Getenv("CORR_CASE_TIMEOUT_S")); err == nil && v > 0 {
+		limit = time.Duration(v) * time.Second
+	}
+	done := make(chan term.T, 1)
+	go func() { done <- safeRun(c, in) }()
+	select {
+	case out = <-done:
+		return out, false
+	case <-time.After(limit):
+		return c.hung(in), true
+	}
 }
 
 func main() {
@@ -71,13 +96,17 @@ func main() {
 			in := c.gen(r, i)
 			// a JSON round trip makes gen and run see the same representation
 			in = roundTrip(in)
-			out := safeRun(c, in)
+			out, hung := timedRun(c, in)
 			rec := map[string]any{"i": i, "in": in, "out": out}
 			if c.kinds != nil {
 				rec["kinds"] = c.kinds(in)
 			}
 			if err := enc.Encode(rec); err != nil {
 				panic(err)
+			}
+			if hung {
+				w.Flush()
+				os.Exit(0)
 			}
 		}
 	case "run":
@@ -90,13 +119,17 @@ func main() {
 				panic(err)
 			}
 			in := t.(map[string]any)["in"]
-			out := safeRun(c, in)
+			out, hung := timedRun(c, in)
 			rec := map[string]any{"i": i, "in": in, "out": out}
 			if c.kinds != nil {
 				rec["kinds"] = c.kinds(in)
 			}
 			if err := enc.Encode(rec); err != nil {
 				panic(err)
+			}
+			if hung {
+				w.Flush()
+				os.Exit(0)
 			}
 			i++
 		}
